@@ -11,7 +11,10 @@
 (* displacement in [-R, R-1]), which exposes the +R edge.                       *)
 EXTENDS Naturals, Integers, FiniteSets, TLC
 
-CONSTANTS NPages, PS, R, Branch, UnmapRejected, AcceptTest
+CONSTANTS NPages, PS, R, Branch, UnmapRejected, AcceptTest,
+          Kernel,   \* "mmap": a hint the kernel may ignore (Unix) | "win": VirtualAlloc with an address -- exactly there, rounded
+                    \* DOWN to the allocation granularity, or failure; never elsewhere
+          Gran      \* allocation granularity in pages (64 KiB / 4 KiB = 16 on Windows; scaled here)
 
 Units == 0..(NPages * PS - 1)
 PageBase(p) == p * PS
@@ -39,8 +42,10 @@ FreePages == (Pages \ {0}) \ (occ \cup mapped)
 
 \* the kernel's answer to mmap(hint): a page number, or -1 for failure
 Answers ==
-  LET hp == hint \div PS IN
-  IF hp \in FreePages THEN {hp} ELSE FreePages \cup {-1}
+  LET hp == hint \div PS
+      base == (hp \div Gran) * Gran IN
+  IF Kernel = "win" THEN (IF base \in FreePages THEN {base} ELSE {-1})
+  ELSE IF hp \in FreePages THEN {hp} ELSE FreePages \cup {-1}
 
 Try ==
   /\ phase = "loop" /\ hint <= src + R
